@@ -40,15 +40,47 @@ pub enum Pinned {
 /// the controls, it refused the value and drew again, and cases that pin it are skipped (counted in NOT_OWNED), not
 /// judged. (On the unchanged tree every value is taken as it stands.)
 pub fn taken_as_is(kind: Pinned, v: &[u8; 32]) -> bool {
-    // every value is probed (once): a library may also refuse values that do not look degenerate to the eye
-    // (a private key of 1, a private key >= N, ...) - none of the properties obliges it to use a draw as it stands
+    // probed (once per value): everything a library could have a reason to refuse - small integers (0, 1, ... < 2^64),
+    // values of one repeated byte, and values with the top bit set (>= 2^255: that includes everything >= N, which a
+    // range check "private key in [1, N-1]" would refuse). An ordinary 256-bit value below 2^255 is taken as it stands.
+    let small = v[8..].iter().all(|b| *b == 0);
+    let repeated = v.iter().all(|b| *b == v[0]);
+    if !(small || repeated || v[31] & 0x80 != 0) {
+        return true;
+    }
     static MEMO: std::sync::RwLock<Option<std::collections::HashMap<(Pinned, [u8; 32]), bool>>> = std::sync::RwLock::new(None);
     if let Some(m) = MEMO.read().unwrap().as_ref() {
         if let Some(e) = m.get(&(kind, *v)) {
             return *e;
         }
     }
+    // the probe runs on a thread of its own: it must not disturb whatever the library keeps per thread between the
+    // calls of the case that is being prepared (a probe between two logins of a sequence would reset a per-thread memo)
+    // (one long-lived prober thread serves all requests)
     let draws = |val: &[u8; 32]| -> usize {
+        use std::sync::mpsc::{channel, Receiver, Sender};
+        type Chan = (Sender<(Pinned, [u8; 32])>, Receiver<usize>);
+        static PROBER: std::sync::Mutex<Option<Chan>> = std::sync::Mutex::new(None);
+        let mut g = PROBER.lock().unwrap();
+        let ch = g.get_or_insert_with(|| {
+            let (tx, rx) = channel::<(Pinned, [u8; 32])>();
+            let (rtx, rrx) = channel::<usize>();
+            std::thread::spawn(move || {
+                while let Ok((k, v)) = rx.recv() {
+                    if rtx.send(draws_on_this_thread(k, &v)).is_err() {
+                        break;
+                    }
+                }
+            });
+            (tx, rrx)
+        });
+        if ch.0.send((kind, *val)).is_err() {
+            return usize::MAX;
+        }
+        ch.1.recv().unwrap_or(usize::MAX)
+    };
+    #[allow(clippy::needless_return)]
+    fn draws_on_this_thread(kind: Pinned, val: &[u8; 32]) -> usize {
         let mut script = val.to_vec();
         script.extend_from_slice(&refmodel::ctr_bytes(77, "probe-tail", 96));
         let (_r, _used, log) = match kind {
@@ -76,8 +108,8 @@ pub fn taken_as_is(kind: Pinned, v: &[u8; 32]) -> bool {
                 (r.map(|_| ()), u, l)
             }
         };
-        log.len()
-    };
+        return log.len();
+    }
     // the control is an ordinary value below 2^248 (so below N): its draw count is what an accepted value costs;
     // should even the control be re-drawn, the minimum over a few controls is taken
     static CONTROL_DRAWS: std::sync::Mutex<[Option<usize>; 3]> = std::sync::Mutex::new([None; 3]);
